@@ -46,7 +46,7 @@ def cases(tier, rng):
     for p in enum.boundary_programs():
         out.append(("boundary", p))
     sf = enum.signed_fused_programs()
-    for p in (sf[rng.below(2)::2] if tier == "quick" else sf):
+    for p in sf:
         out.append(("signed-fused", p))
     n = 1500 if tier == "quick" else 40000
     for _ in range(n):
